@@ -210,7 +210,7 @@ def cleanup_registered_with_the_temp_handle(ctx):
     ctx.ob(f, 'returns self._temp_fileobj = self._get_temp_fileobj()', rets == ['self._temp_fileobj'] and vals == ['self._get_temp_fileobj()'], f'returns {rets} from {vals}')
 
 
-@rule('C06.d', ['C06', 'C19', 'C20'], floor=8)
+@rule('C06.d', ['C06', 'C19', 'C20', 'C02', 'C03'], floor=8)
 def both_outcomes_handled(ctx):
     """Sibling agreement of the non-manager finalisers: legacy download_file - handler
     removes the temp file and re-raises, else renames; process pool _finalize_download -
@@ -225,6 +225,20 @@ def both_outcomes_handled(ctx):
     ok = bool(hs) and any((dotted(c.func) or '').endswith('remove_file') and norm(c.args[0]) == 'temp_filename' for s in hs[0].body for c in ast.walk(s) if isinstance(c, ast.Call)) \
         and isinstance(hs[0].body[-1], ast.Raise)
     ctx.ob(f, 'except Exception: remove_file(temp_filename); raise', ok, 'a failed legacy download must remove its temp file and report the error')
+    # legacy ranged download: both controller futures are waited for and their exceptions retrieved
+    f = ctx.func('__init__.MultipartDownloader.download_file')
+    ws = [c for c in own_calls(f.node) if (dotted(c.func) or '').endswith('futures.wait')]
+    rw = norm(kwarg(ws[0], 'return_when')) if ws and kwarg(ws[0], 'return_when') is not None else 'ALL_COMPLETED'
+    subs = [c for c in own_calls(f.node) if (dotted(c.func) or '') == 'controller.submit']
+    futs = sorted(c._parent.targets[0].id for c in subs if isinstance(c._parent, ast.Assign))
+    ok = len(ws) == 1 and rw.split('.')[-1] in ('FIRST_EXCEPTION', 'ALL_COMPLETED') and isinstance(ws[0].args[0], ast.List) \
+        and sorted(norm(e) for e in ws[0].args[0].elts) == futs and len(futs) == 2
+    ctx.ob(f, f'wait([parts_future, io_future], return_when={rw.split(".")[-1]})', ok,
+           'the download must not return before both the part fetcher and the IO writer finished without error: a late write error would be lost and a truncated file published')
+    pr = ctx.func('__init__.MultipartDownloader._process_future_results')
+    ok = any(isinstance(c.func, ast.Attribute) and c.func.attr == 'result' and isinstance(q.in_loop(c), ast.For) for c in own_calls(pr.node))
+    res = [c for c in own_calls(f.node) if (dotted(c.func) or '') == 'self._process_future_results']
+    ctx.ob(f, 'results of the finished futures are retrieved (errors propagate)', ok and len(res) == 1 and not q.guards(res[0]), 'exceptions of the controller futures must be re-raised')
     # process pool
     f = ctx.func('processpool.GetObjectWorker._finalize_download')
     g = ctx.cfg(f)
